@@ -235,6 +235,28 @@ def gen(repo):
     key_ok = bool(re.search(r"getnameinfo\(reinterpret_cast<const sockaddr \*>\(&ss\), sl, h, sizeof\(h\), sv, sizeof\(sv\), NI_NUMERICHOST \| NI_NUMERICSERV\) == 0", kb)) and \
         bool(re.search(r"std::string o\(h\); o\.push_back\(':'\); o\.append\(sv\); return o;", kb)) and \
         bool(re.search(r"socklen_t sl = \(ss\.ss_family == AF_INET\) \? sizeof\(sockaddr_in\) : sizeof\(sockaddr_in6\);", kb))
+    # declared sizes of key()'s two buffers: large enough for EVERY numeric host (IPv6 incl. v4-mapped and scope: NI_MAXHOST, or a
+    # literal/constant >= INET6_ADDRSTRLEN (46) + IF_NAMESIZE (16) + 1) and every numeric service (NI_MAXSERV or >= 6)
+    mh = re.search(r"char h\[([^\]]+)\]", kb)
+    ms = re.search(r"\bsv\[([^\]]+)\]", kb)
+    if not mh or not ms:
+        raise TranslateError("key(): the host/service buffers are not plain char arrays `h[...]`, `sv[...]`")
+
+    def buf_ok(txt, names, minimum):
+        txt = txt.strip()
+        if txt in names:
+            return True
+        try:
+            return cxxscan.const_eval(txt) >= minimum
+        except cxxscan.ScanError:
+            return False         # INET_ADDRSTRLEN, sizeof("65535"), … : not provably large enough
+    key_host_buf, key_serv_buf = mh.group(1).strip(), ms.group(1).strip()
+    key_bufs_ok = buf_ok(key_host_buf, ("NI_MAXHOST",), 63) and buf_ok(key_serv_buf, ("NI_MAXSERV",), 6)
+    key_passes_sizes = bool(re.search(r"h, sizeof\(h\), sv, sizeof\(sv\)", kb))
+    key_fail_returns_empty = bool(re.search(r"return o; \} return \{\};$", kb.strip()))
+    # a failing key() (empty string) must not be indexed: both users test `k.empty()` right after computing it and bail out
+    empty_rfl = bool(re.search(r"std::string\s+k\s*=\s*key\(\s*from\s*\)\s*;\s*if\s*\(\s*k\.empty\(\)\s*\)\s*\{[^{}]*continue\s*;\s*\}", rfl))
+    empty_via = bool(re.search(r"std::string\s+k\s*=\s*key\(\s*to\s*\)\s*;\s*if\s*\(\s*k\.empty\(\)\s*\)\s*\{(?:[^{}]|\{[^{}]*\})*return\s+false\s*;\s*\}", via))
     ab = re.sub(r"\s+", " ", bodies["addressFromSockaddr"])
     addr_ok = bool(re.search(r"::inet_ntop\(AF_INET, &sa4->sin_addr, host, sizeof\(host\)\); addr\.host = host; addr\.port = ntohs\(sa4->sin_port\);", ab)) and \
         bool(re.search(r"::inet_ntop\(AF_INET6, &sa6->sin6_addr, host, sizeof\(host\)\); addr\.host = host; addr\.port = ntohs\(sa6->sin6_port\);", ab))
@@ -305,6 +327,13 @@ def gen(repo):
     t += "/-- address canonicalisation (DERIVED): `key()` = getnameinfo(NI_NUMERICHOST|NI_NUMERICSERV) host + ':' + service for both families;\n"
     t += "    `addressFromSockaddr` = inet_ntop host + ntohs(port) for both families; a ServerPeer session copies the whole source/target sockaddr -/\n"
     t += "def keyIsNumericHostColonPort : Bool := %s\n" % _lb(key_ok)
+    t += "/-- key(): declared sizes of the host / service buffers, whether they hold every numeric form (NI_MAXHOST or >= 63; NI_MAXSERV or >= 6),\n"
+    t += "    whether `sizeof` of exactly these buffers is what getnameinfo is told, and that a getnameinfo failure returns the empty string -/\n"
+    t += "def keyHostBuffer : String := \"%s\"\ndef keyServiceBuffer : String := \"%s\"\n" % (key_host_buf.replace('"', "'"), key_serv_buf.replace('"', "'"))
+    t += "def keyBuffersHoldEveryNumericForm : Bool := %s\n" % _lb(key_bufs_ok and key_passes_sizes)
+    t += "def keyFailureReturnsEmpty : Bool := %s\n" % _lb(key_fail_returns_empty)
+    t += "/-- the two users of key() refuse an empty key before touching _peerIndex (readFromListener: report + continue; viaDo: close the id + return false) -/\n"
+    t += "def emptyKeyRefusedOnReceive : Bool := %s\ndef emptyKeyRefusedOnVia : Bool := %s\n" % (_lb(empty_rfl), _lb(empty_via))
     t += "def addressFromSockaddrIsHostAndPort : Bool := %s\n" % _lb(addr_ok)
     t += "def sessionKeepsWholePeerAddress : Bool := %s\n" % _lb(peer_copied)
     t += "/-- id counters: `std::atomic<…>` members starting at …; `_nextSessionId++` is the initialiser in exactly these functions -/\n"
